@@ -51,14 +51,17 @@ def harnesses(tier, seed):
     else:
         for ty in ("E", "M", "F", "MF", "FM", "FMF", "FL", "FLF"):
             for term in TERMS_VAL:
-                if ty == "FLF" and term == "collect_vec":
-                    hs.append(h(term, ty, "slice", 2))
+                fl = ty in ("FL", "FLF")
+                if fl and term.startswith("collect"):
+                    hs.append(h(term, ty, "slice", 2))   # symbolic fan-out: vector lengths symbolic, ~8 min at n = 2
                     continue
                 needs_val = term in ("reduce_nc", "reduce_sub", "fold_nc", "min_by_key")
                 src = "vec" if (ty in ("E", "F") and needs_val) else "slice"
-                hs.append(h(term, ty, src, 4))
+                hs.append(h(term, ty, src, 3 if fl else 4))
             for src in ("vec", "range", "iter", "iterf", "deque"):
                 for term in ("count", "collect_vec", "find"):
+                    if ty in ("FL", "FLF") and term == "collect_vec":
+                        continue
                     hs.append(h(term, ty, src, 3))
         # sequential flat_map collect: with symbolic fan-out it costs ~8 min (thorough tier); here with fixed fan-outs
         for k in ((2, 1), (0, 2), (1, 1)):
